@@ -3,7 +3,6 @@ from .common import hx, rbytes, boundary_bytes, budget
 
 HARNESS = "c19"
 CONST_GROUPS = ["message", "cluster"]
-READY = False
 RULE = ("cases: id <ssid> (NewID with the clock second, sequence number and process nonce reported by a hook), idseq "
         "(consecutive ids sort descending and are distinct, incl. across the 2^32 sequence wrap), idconc (concurrent "
         "creation), settime over the supported time range, msg / frame (Encode, inner bytes below snappy, Decode), split "
